@@ -83,6 +83,10 @@ def gen(r, tier):
         yield "reduce ; %s ; NF" % s
         for cols2, pfx2 in SLICES:
             yield "cogroup ; %s ; S %s P %d N %d" % (s, ",".join(cols2), pfx2, 5)
+        # three and four inputs, shard counts in every order (the result has the largest)
+        for ns in ((4, 1, 2), (1, 4, 2), (2, 1, 4), (2, 5, 1, 3), (3, 1, 5, 2), (1, 1, 1)):
+            yield "cogroup ; " + " ; ".join("S %s P %d N %d" % (",".join(cols), pfx, k) for k in ns)
+            yield "cogroup ; " + " ; ".join("S %s P %d N %d" % (",".join(cols if i != 1 else cols[:pfx] + ["str"]), pfx, k) for i, k in enumerate(ns))
     # readerfunc
     for ins in (["int", "S", "[]int"], ["int", "S", "[]int", "[]str"], ["int", "int", "[]S"], ["str", "S", "[]int"], ["int", "S"],
                 ["int", "S", "int"], ["int", "S", "[]int", "str"], ["int"], []):
